@@ -141,7 +141,11 @@ class InterpolatedThresholder(MetaEstimatorMixin, BaseEstimator):
             enforce_binary_labels=False,
         )
 
-        positive_probs = 0.0 * base_predictions_vector.astype(np.float64)
+        # The thresholds were computed in double precision: compare the scores in double
+        # precision too (a float32 score column would round the threshold to float32,
+        # possibly onto one of the two score levels it separates).
+        base_predictions_vector = base_predictions_vector.astype(np.float64)
+        positive_probs = 0.0 * base_predictions_vector
         for a, interpolation in self.interpolation_dict.items():
             interpolated_predictions = interpolation.p0 * interpolation.operation0(
                 base_predictions_vector
